@@ -1,6 +1,7 @@
 """C16 - hop-by-hop, end-to-end and session ids are unique, also under concurrency."""
 import threading
 from typing import List
+import types
 from engine import hx, coop
 from engine.env import STUBS, WORLD  # noqa: F401
 from harness import bench as B  # noqa: F401  (installs the virtual world: time/random shims)
@@ -91,21 +92,34 @@ def seq_sequential(start: int) -> bool:
     return hx.check((start,), (got, cur), (exp, exp[-1]), "successive draws are start+1.. and MAX wraps to 1 (never 0)")
 
 
-def seq_init(now: int, rnd: int) -> bool:
+def seq_init(now: int, rnd: int, big: bool) -> bool:
     """
-    pre: 1 <= now <= 0xffffffff and 0 <= rnd <= 0xffffe
+    pre: 0 <= now <= 0xffffffff and 0 <= rnd <= 0xffffe
     post: _
     """
     hx.begin()
-    WORLD.randint_value = rnd            # random.randint(a, b) stub returns a + rnd, a = MIN_SEQUENCE = 1
+    import diameter.node._helpers as helpers
+    asked = []
+
+    def randint(a, b):
+        # a value of whatever range the generator asks for: the bottom 2^20 values, or (range wider than 20 bits) the top 2^20
+        asked.append((a, b))
+        if big and b - a > 0xfffff:
+            return b - rnd
+        r = a + rnd
+        return r if r <= b else b
+    saved = helpers.random
+    helpers.random = types.SimpleNamespace(randint=randint, getrandbits=saved.getrandbits)
     try:
         g = SequenceGenerator(now)
         v = g.sequence
         first = g.next_sequence()
     except Exception as e:
-        return hx.fail((now, rnd), "raised " + type(e).__name__)
-    exp = (now % 4096) * (1 << 20) + (1 + rnd)
-    return hx.check((now, rnd), (v, first), (exp, 1 if exp == MAXS else exp + 1), "end-to-end generator: low 12 bits of the start time in the high 12 bits, random low 20 bits")
+        return hx.fail((now, rnd, big), "raised " + type(e).__name__)
+    finally:
+        helpers.random = saved
+    obs = (v // (1 << 20), 1 <= v <= MAXS, len(asked), first)
+    return hx.check((now, rnd, big), obs, (now % 4096, True, 1, 1 if v == MAXS else v + 1), "end-to-end generator: low 12 bits of the start time in the high 12 bits, random low 20 bits")
 
 
 SESSION_STARTS = [0, 1, 77, 0xffffffff, 0x100000000, MAX64 - 2, MAX64 - 1, MAX64]
@@ -176,7 +190,7 @@ def specs(tier, seed, carve):
            dict(id="seq_concurrent/3x1", fn="seq_concurrent", params={"threads": 3, "draws": 1, "slots": 2, "preempt": 2, "maxstep": 34}, timeout=900,
                 bound="3 threads x 1 draw, every placement of <= 2 preemptions (round-robin target), every start value"),
            dict(id="seq_sequential", fn="seq_sequential", params={}, timeout=60, bound="4 successive draws from every start value in [1, MAX]"),
-           dict(id="seq_init", fn="seq_init", params={}, timeout=120, bound="every start time in [1, 2^32), every random low part"),
+           dict(id="seq_init", fn="seq_init", params={}, timeout=120, bound="every start time in [0, 2^32); random source = the bottom or (for requests wider than 20 bits) the top 2^20 values of the requested range"),
            dict(id="session_concurrent/1", fn="session_concurrent", params={"draws": 1, "slots": 2, "preempt": 2, "maxstep": 30}, timeout=900,
                 bound="2 threads x 1 draw, every placement of <= 2 preemptions, start values from an 8-element boundary pool (incl. MAX-2..MAX)"),
            dict(id="session_concurrent/2", fn="session_concurrent", params={"draws": 2, "slots": 1, "preempt": 1, "maxstep": 56}, timeout=900,
